@@ -141,6 +141,8 @@ SEQUENCED = [
     "{ for (i = 0; i < 2; i++) { RdV = RxV = i; } }", "{ RdV = RsV; { RxV = RtV; { RyV = RsV; } } }", "{ RdV = RsV ? ({ RxV = 1; 2; }) : ({ RyV = 3; 4; }); }",
     "{ RdV = clz32(RsV) + clz32(RtV) + clz32(RsV + RtV); }", "{ i = 0; i++; i++; RdV = i; }", "{ mem_store_u8(RsV, RtV); mem_store_u8(RsV + 1, RtV); }",
     "{ if (RsV) { JUMP(RtV); } else { JUMP(RsV); } }", "{ set_usr_field(bundle, HEX_REG_FIELD_USR_OVF, 1); RdV = get_usr_field(bundle, HEX_REG_FIELD_USR_OVF); }",
+    "{ RdV = ({ RxV = 1; RxV; }); }", "{ RdV = ({ RxV = 1; RyV = 2; RxV; }); }", "{ RdV = ({ RxV = 1; RyV = 2; ReV = 3; RxV; }); }", "{ RdV = ({ RxV = 1; RyV = 2; ReV = 3; RzV = 4; RxV; }); }",
+    "{ RdV = RsV ? ({ RxV = 1; RyV = 2; ReV = 3; RxV; }) : 5; }", "{ RdV = ({ RxV = 1; if (RsV) { RyV = 2; } ReV = 3; RxV; }); }", "{ ({ RdV = 1; RxV = 2; RyV = 3; }); }", "{ ({ RdV = 1; RxV = 2; }); ReV = 3; }",
     "{ RdV = 1; ; ; RxV = 2; }", "{ int32_t t = RsV; int32_t u = t + 1; RdV = u; }", "{ RxV += RsV; RxV -= RtV; RxV <<= 1; }",
 ]
 
